@@ -120,3 +120,8 @@ Proof.
   - apply (pbkdf2_len P L).
   - apply (ctr_involutive P L).
 Qed.
+
+(* google/uuid accepts the textual form of RFC 4122 (the only law about it that reading needs) *)
+Definition uuid_accepts_text (P : prims) : Prop := forall s, uuid_text_ok s = true -> uuid_parse P s <> None.
+Lemma prim_laws_uuid (P : prims) : prim_laws P -> uuid_accepts_text P.
+Proof. intros L. exact (uuid_parse_text P L). Qed.
